@@ -8,8 +8,8 @@ PROPS = ["Props/C16.v"]
 GEN = ["Effects.v"]
 MODEL_IS_SPEC = False
 RULE = ("pools of 2-3 live result iterators (same compiled query on the same value, same query on different values, different queries of one environment, different environments; "
-        "queries with filters, nested filters and descendant segments) with combined result length <= 8: EVERY schedule of next() calls of length total+k is replayed on fresh "
-        "iterators of the real library (sampled above 3000 schedules), with abandoned iterators dropped and garbage-collected mid-schedule; each iterator's outputs must be the prefix "
+        "queries with filters, nested filters and descendant segments) with combined result length <= 40: EVERY schedule of next() calls of length total+k is replayed on fresh "
+        "iterators of the real library (sampled where there are more than 400 (quick) / 3000 schedules), with abandoned iterators dropped and garbage-collected mid-schedule; each iterator's outputs must be the prefix "
         "of its solitary run; plus 8 threads compiling and evaluating on one shared environment under sys.setswitchinterval(1e-6), compared with sequential results; "
         "the solitary sequences are compared with the model; non-trivial = at least two iterators yield something; distinct = distinct (pool, schedule)")
 TRUSTED_BASE = [
@@ -45,10 +45,14 @@ def cases(ctx, budget):
         specs = []
         base_v = gen.rand_json(rng, depth=rng.randint(1, 3), fan=3, names=names, top=True)
         base_q = gen.guided_query(rng, base_v, names=names, filters=rng.random() < 0.6, depth=2, maxseg=3)
+        if rng.random() < 0.4:      # make sure descendant segments (their traversal state) are well represented
+            dsel = rng.choice([("wild",), ("name", rng.choice(names)), ("index", rng.choice([0, 1, -1])), ("slice", None, None, rng.choice([None, 2, -1]))])
+            base_q = list(base_q); base_q.insert(rng.randint(0, len(base_q)), ("desc", [dsel]))
         base_t = gen.render_query(rng, base_q)
         shared = env_a.compile(base_t)
+        same_first = rng.random() < 0.5
         for i in range(k):
-            mode = rng.choice(["same", "same-query-other-value", "other-query", "other-env"])
+            mode = "same" if (same_first and i < 2) else rng.choice(["same", "same-query-other-value", "other-query", "other-env"])
             if mode == "same": specs.append((shared, base_t, base_v, env_a))
             elif mode == "same-query-other-value":
                 specs.append((shared, base_t, gen.rand_json(rng, depth=2, fan=3, names=names, top=True), env_a))
@@ -66,7 +70,7 @@ def cases(ctx, budget):
             rows = list(dict.fromkeys(rx))
             yield Case({"text": t, "value": v}, [4, 100] + renc + gen.enc_rxtable(rows) + wire.enc_str(t) + wire.enc_json(v), out, None, None, len(s) > 0, "solo")
         total = sum(len(s) for s in solos)
-        if total > 8 or total == 0:
+        if total > 40 or total == 0:
             continue
         length = total + k
         all_scheds = itertools.product(range(k), repeat=length) if k ** length <= cap else None
